@@ -8,14 +8,14 @@ def handle (zs : Zones) (ws : List String) : Option String :=
   | ["add", z, w, f, a, b, c, d, e, g, h, i] => do
     let v ← parseV zs z w f
     match ints [a, b, c, d, e, g, h, i] with
-    | some [y, mo, wk, dd, hh, mi, s, us] => some (replyV (add v y mo wk dd hh mi s us))
+    | some [y, mo, wk, dd, hh, mi, s, us] => some (replyV (addChecked v y mo wk dd hh mi s us))
     | _ => none
   | ["addsub", z, w, f, e, g, h, i] => do   -- x.add(...).subtract(...) with the same arguments
     let v ← parseV zs z w f
     match ints [e, g, h, i] with
     | some [hh, mi, s, us] =>
-      match add v 0 0 0 0 hh mi s us with
-      | .ok r => some (replyV (add r 0 0 0 0 (-hh) (-mi) (-s) (-us)))
+      match addChecked v 0 0 0 0 hh mi s us with
+      | .ok r => some (replyV (addChecked r 0 0 0 0 (-hh) (-mi) (-s) (-us)))
       | .error e => some ("err " ++ e.name)
     | _ => none
   | _ => none
